@@ -232,8 +232,33 @@ def _block_case(cseed, block, cid):
     rb = rf = ""
     outb, outf, keys = [], [], []
 
+    # The blocks consume STREAMS: in half of the cases the judged example comes second, after a warm-up example of
+    # another image size and other keypoints (state carried from one example to the next would show).
+    warm_first = [rng.random() < 0.5]
+
+    def S(ex):
+        if not warm_first[0]:
+            return [ex]
+        wm = {}
+        for k, v in ex.items():
+            if k in ("image",):
+                hh, ww = max(8, v.shape[-2] - 3), max(8, v.shape[-1] - 2)
+                r = torch.rand(v.shape[:-2] + (hh, ww), generator=g)
+                wm[k] = (r * 255).to(torch.uint8) if v.dtype == torch.uint8 else r
+            elif torch.is_tensor(v):
+                wm[k] = v.clone() * 0.5 + 2.0
+            else:
+                wm[k] = v
+        return [wm, ex]
+
     def run_block(dp):
-        return [dict(o) for o in dp]            # InstanceCropper yields the same dict object again and again
+        outs = [dict(o) for o in dp]            # InstanceCropper yields the same dict object again and again
+        if warm_first[0]:
+            drop = real if block == "InstanceCropper" else 1
+            if len(outs) < drop:
+                raise AssertionError("stream with a warm-up example gave %d outputs" % len(outs))
+            outs = outs[drop:]
+        return outs
 
     try:
         if block == "Normalizer":
@@ -242,7 +267,7 @@ def _block_case(cseed, block, cid):
             params.update(is_rgb=int(is_rgb))
             keys = ["image"]
             try:
-                outb = run_block(nz.Normalizer([dict(image=src.clone())], is_rgb=is_rgb))
+                outb = run_block(nz.Normalizer(S(dict(image=src.clone())), is_rgb=is_rgb))
             except Exception as e:
                 rb = "%s: %s" % (type(e).__name__, e)
             x = nz.apply_normalization(src.clone())
@@ -253,8 +278,10 @@ def _block_case(cseed, block, cid):
                       "pad_both": (h + 7, w + 20), "smaller": (max(h - 5, 8), max(w - 9, 8))}[mode]
             params.update(maxH=mh, maxW=mw)
             keys = ["image"]
+            if mode == "smaller":
+                warm_first[0] = False
             try:
-                outb = run_block(rz.SizeMatcher([dict(image=img.clone())], max_height=mh, max_width=mw))
+                outb = run_block(rz.SizeMatcher(S(dict(image=img.clone())), max_height=mh, max_width=mw))
             except Exception as e:
                 rb = "%s: %s" % (type(e).__name__, e)
             outf = [dict(image=rz.apply_sizematcher(img.clone(), mh, mw)[0])]
@@ -263,7 +290,7 @@ def _block_case(cseed, block, cid):
             params.update(s4=int(s * 4))
             keys = ["image", "instances"]
             try:
-                outb = run_block(rz.Resizer([dict(image=img.clone(), instances=inst.clone())], scale=s))
+                outb = run_block(rz.Resizer(S(dict(image=img.clone(), instances=inst.clone())), scale=s))
             except Exception as e:
                 rb = "%s: %s" % (type(e).__name__, e)
             a, b = rz.apply_resizer(img.clone(), inst.clone(), scale=s)
@@ -273,7 +300,7 @@ def _block_case(cseed, block, cid):
             params.update(m=m)
             keys = ["image"]
             try:
-                outb = run_block(rz.PadToStride([dict(image=img.clone())], max_stride=m))
+                outb = run_block(rz.PadToStride(S(dict(image=img.clone())), max_stride=m))
             except Exception as e:
                 rb = "%s: %s" % (type(e).__name__, e)
             outf = [dict(image=rz.apply_pad_to_stride(img.clone(), max_stride=m))]
@@ -282,7 +309,7 @@ def _block_case(cseed, block, cid):
             params.update(anchor=-1 if anchor is None else anchor)
             keys = ["centroids", "instances"]
             try:
-                outb = run_block(ic.InstanceCentroidFinder([dict(instances=inst.clone())], anchor_ind=anchor))
+                outb = run_block(ic.InstanceCentroidFinder(S(dict(instances=inst.clone())), anchor_ind=anchor))
             except Exception as e:
                 rb = "%s: %s" % (type(e).__name__, e)
             x = inst.clone()
@@ -293,8 +320,8 @@ def _block_case(cseed, block, cid):
             keys = ["instance_image", "instance_bbox", "instance", "centroid"]
             cen = ic.generate_centroids(inst.clone(), anchor_ind=None)
             try:
-                outb = run_block(icr.InstanceCropper([dict(image=img.clone(), instances=inst.clone(), centroids=cen.clone(),
-                                                           num_instances=real)], crop_hw=(cr, cr)))
+                outb = run_block(icr.InstanceCropper(S(dict(image=img.clone(), instances=inst.clone(), centroids=cen.clone(),
+                                                             num_instances=real)), crop_hw=(cr, cr)))
             except Exception as e:
                 rb = "%s: %s" % (type(e).__name__, e)
             outf = [icr.generate_crops(img.clone(), inst[0, a].clone(), cen[0, a].clone(), (cr, cr)) for a in range(real)]
@@ -305,7 +332,7 @@ def _block_case(cseed, block, cid):
             keys = ["confidence_maps"]
             pts = inst[:, :1].clone() if which == "instances" else inst[:, 0].clone()      # (1, 1, n, 2) / (1, n, 2)
             try:
-                outb = run_block(cm.ConfidenceMapGenerator([{"image": img.clone(), which: pts.clone()}], sigma=sigma,
+                outb = run_block(cm.ConfidenceMapGenerator(S({"image": img.clone(), which: pts.clone()}), sigma=sigma,
                                                            output_stride=stride, image_key="image", instance_key=which))
             except Exception as e:
                 rb = "%s: %s" % (type(e).__name__, e)
@@ -317,8 +344,8 @@ def _block_case(cseed, block, cid):
             cen = ic.generate_centroids(inst.clone(), anchor_ind=None)
             keys = ["centroids_confidence_maps" if cents else "confidence_maps"]
             try:
-                outb = run_block(cm.MultiConfidenceMapGenerator([dict(image=img.clone(), instances=inst.clone(), centroids=cen.clone(),
-                                                                      num_instances=real)], sigma=sigma, output_stride=stride,
+                outb = run_block(cm.MultiConfidenceMapGenerator(S(dict(image=img.clone(), instances=inst.clone(), centroids=cen.clone(),
+                                                                        num_instances=real)), sigma=sigma, output_stride=stride,
                                                                 centroids=cents))
             except Exception as e:
                 rb = "%s: %s" % (type(e).__name__, e)
@@ -331,7 +358,7 @@ def _block_case(cseed, block, cid):
             params.update(stride=stride, flat=int(flat))
             keys = ["part_affinity_fields"]
             try:
-                outb = run_block(em.PartAffinityFieldsGenerator([dict(image=img.clone(), instances=inst.clone())], sigma=sigma,
+                outb = run_block(em.PartAffinityFieldsGenerator(S(dict(image=img.clone(), instances=inst.clone())), sigma=sigma,
                                                                 output_stride=stride, edge_inds=edges, flatten_channels=flat))
             except Exception as e:
                 rb = "%s: %s" % (type(e).__name__, e)
@@ -350,7 +377,7 @@ def _block_case(cseed, block, cid):
         eq.append(int(all(f[0] for f in fl)))
         diff.append(max([f[1] for f in fl] or [0]))
     return dict(id=cid, cseed=cseed, block=block, nb=len(outb), nf=len(outf), rb=rb[:160], rf=rf[:160], keys=keys, shb=shb, shf=shf, eq=eq,
-                diff=diff, params=params, **{k: params[k] for k in ("h", "w", "maxH", "maxW")})
+                diff=diff, params=params, warm=int(warm_first[0]), **{k: params[k] for k in ("h", "w", "maxH", "maxW")})
 
 
 BLOCKS = ("Normalizer", "SizeMatcher", "Resizer", "PadToStride", "InstanceCentroidFinder", "InstanceCropper",
@@ -461,6 +488,7 @@ def run(tier, seed):
     bnotes, brej = _notes(jb)
     for k, v in bnotes.items():
         res.clause(k, v)
+    res.clause("block_case_second_in_stream_after_warm_up", sum(c["warm"] for c in cases))
     for b in BLOCKS:
         if b != "SizeMatcher" and bnotes.get("block_judged_" + b, 0) != nb:
             raise TLCError("block %s: not every case was judged as demanded" % b)
